@@ -310,8 +310,14 @@ def eval_stdin(ctx, case):
             got, exc = call(eu.safe_decode, data, **kwargs)
         else:
             got, exc = call(eu.safe_encode, data, encoding=case['encoding'], **kwargs)
+        # to_utf8 is the identity on bytes whatever the default (stdin) encoding is
+        got8, exc8 = call(eu.to_utf8, data)
     finally:
         sys.stdin = saved
+    ctx.clause('to_utf8-bytes-identity')
+    if exc8 is not None or type(got8) is not bytes or got8 != data:
+        ctx.fail('to_utf8-bytes-identity', case, {'input': data, 'got': got8, 'exc': exc8,
+                                                   'stdin_encoding': spec.get('encoding')})
     if op == 'decode':
         check_decode(ctx, case, 'stdin-default-decode', data, effective, errors, got, exc)
     else:
